@@ -51,7 +51,7 @@ fn my_borrowck<'tcx>(
         defs.push(d);
     }
     for d in defs {
-        let (steal, _) = tcx.mir_promoted(d);
+        let (steal, promoted) = tcx.mir_promoted(d);
         if steal.is_stolen() {
             LINES.lock().unwrap().push(format!(
                 "{{\"t\":\"stolen\",\"path\":{}}}",
@@ -60,8 +60,16 @@ fn my_borrowck<'tcx>(
             continue;
         }
         let body = steal.borrow();
-        let line = mirdump::dump_body(tcx, d, &body);
+        let line = mirdump::dump_body(tcx, d, &body, None);
         LINES.lock().unwrap().push(line);
+        // promoted constants (`&[]`, `&Enum::Variant`, ...) referenced as `<owner>::promoted[n]`
+        if !promoted.is_stolen() {
+            let pbs = promoted.borrow();
+            for (i, pb) in pbs.iter_enumerated() {
+                let line = mirdump::dump_body(tcx, d, pb, Some(i.as_usize()));
+                LINES.lock().unwrap().push(line);
+            }
+        }
     }
     (ORIG_BORROWCK.get().unwrap())(tcx, key)
 }
